@@ -50,3 +50,5 @@ CONSTANTS
  LateFrames = FALSE
  CrossVersion = TRUE
  Restore = FALSE
+ Regulate_ = FALSE
+ OptFlips = {}
